@@ -74,7 +74,8 @@ def prove(ctx, claim, timeout_ms=20000, with_pc="auto", extra=()):
             for f in extra:
                 s.add(f)
         s.add(z3.Not(claim))
-        r = s.check()
+        from .enc import guarded_check
+        r = guarded_check(s, int(tmo))
         ctx.queries += 1
         if r == z3.unsat:
             dt = time.time() - t0
